@@ -2,6 +2,7 @@ import XmppModel.Model.Negotiate
 import XmppModel.Lemmas.Negotiate
 import XmppModel.Lemmas.NegotiateReach
 import XmppModel.Lemmas.NegotiateTerm
+import XmppModel.Lemmas.NegotiateDyn
 import XmppModel.Lemmas.Component
 import XmppModel.Lemmas.Deadline
 import XmppModel.Generated.C04
@@ -313,5 +314,27 @@ example : cancelled.pc = .fail .io := by decide
 -- … and without the cancellation the same run is reported established (`C04_nil_only_if_clean`)
 example : (run [fV] quiet 30 (init 0 [.hdr true, .adv [.feat ⟨2, 1⟩ false]] [⟨2, 1⟩])).pc = .done := by
   decide
+
+/-! ### a stream configuration that depends on the session (`stepD`, see Props/C01)
+
+Fail-closed does not depend on which features the config function returns for which state. -/
+
+/-- **nil only if clean**, **fail closed**, **nothing after the failed step** for every config
+function `F` -/
+theorem C04_dyn_nil_only_if_clean {F : St → List Feature} {d : DConf}
+    (h : ReachD F O st0 script picks d) (hd : d.c.pc = .done) : ∀ e ∈ d.c.tr, e.faulty = false :=
+  (invB_reachD h).live (by rw [hd]; rfl)
+
+theorem C04_dyn_fail_closed {F : St → List Feature} {d : DConf} (h : ReachD F O st0 script picks d)
+    {e : Ev} (he : e ∈ d.c.tr) (hf : e.faulty = true) :
+    (∃ cls, d.c.pc = .fail cls) ∨ d.c.pc = .abort := by
+  have hb := invB_reachD h
+  cases hp : d.c.pc <;> first
+    | exact Or.inl ⟨_, rfl⟩
+    | exact Or.inr rfl
+    | (have := hb.live (by rw [hp]; rfl) e he; rw [hf] at this; cases this)
+
+theorem C04_dyn_no_continue_after_fault {F : St → List Feature} {d : DConf}
+    (h : ReachD F O st0 script picks d) : FaultShape d.c.tr := (invB_reachD h).shape
 
 end XmppModel.Props.C04
